@@ -17,7 +17,7 @@ def _classify(line, r):
         return "wire.customtype-numeral-on-message-typed-field"
     if code == 2:
         return "wire.families-disagree.%s" % h.get("msg", "?")
-    name = {10: "file", 11: "message", 12: "enum", 13: "service", 14: "imported-message", 20: "unregistered-msg",
+    name = {10: "file", 11: "message", 12: "enum", 13: "service", 14: "imported-message", 15: "grpc-service-desc", 20: "unregistered-msg",
             21: "signer-unresolved", 30: "proto-source-differs"}.get(code, "code%d" % code)
     return "descriptor.%s.%s.%s.at%d" % (name, re.sub(r"[^A-Za-z0-9_.]", "_", h.get("file", "?")), h.get("name", "?").replace("/", "_"), r[1])
 
@@ -35,7 +35,7 @@ PROPS["C20"] = dict(
     case_type="scase",
     case_imports=["Open Scope string_scope."],
     streams=[
-        dict(name="static", quick=560, thorough=560, check_module="Proto.Check", check_fn="check_static",
+        dict(name="static", quick=620, thorough=620, check_module="Proto.Check", check_fn="check_static",
              case_type="scase", case_imports=["Open Scope string_scope."], coq_shard=200),
         dict(name="populated", quick=1200, thorough=30000, **_wire),
         dict(name="absent", quick=600, thorough=12000, **_wire),
@@ -59,6 +59,7 @@ PROPS["C20"] = dict(
         11: "the message's descriptor (field name, number, type, label, json name, options) differs between the families",
         12: "the enum's descriptor differs between the families",
         13: "the service's descriptor (methods, request/response types, streaming, options) differs between the families",
+        15: "the grpc.ServiceDesc in the generated Go code (service name, method names, request types, streaming, metadata file) is not what the descriptors declare",
         14: "an imported message (Coin, PageRequest, Any, ...) has a different wire layout in the two families",
         20: "a transaction message (request type of a Msg service) is not registered as sdk.Msg in the interface registry",
         21: "the cosmos.msg.v1.signer option of a transaction message does not resolve to an address field",
